@@ -56,6 +56,11 @@ func bigHead(r *rng, resp bool) string {
 		sb.WriteString("GET /big HTTP/1.1\r\nHost: example.com\r\n")
 	}
 	target := pick(r, []int{3300, 3500, 4000, 4090, 4096, 4100, 5000, 6500})
+	if r.chance(1, 3) {
+		// ONE header line that is longer than a 4096-byte read buffer (or sits at its edge)
+		fmt.Fprintf(&sb, "X-Long-Line: %s\r\n\r\n", strings.Repeat("q", pick(r, []int{4000, 4078, 4079, 4080, 4081, 5000, 20000})))
+		return sb.String()
+	}
 	i := 0
 	for sb.Len() < target {
 		fmt.Fprintf(&sb, "Set-Cookie: c%d=%s; Path=/\r\n", i, strings.Repeat("v", 60+i%17))
